@@ -11,6 +11,17 @@ from symx import hx
 from pico8 import util
 
 
+
+
+def _real_open(name, mode='rb', *a, **kw):
+    # (not builtins.open: in symbolic runs calls of that function object are
+    # routed to the in-memory file system, which is where this is called from)
+    return os.fdopen(os.open(name, os.O_RDONLY), mode if 'b' in mode else 'r')
+
+
+_PKG_DIR = os.path.join(os.environ.get('SYMX_REPO', '/repo'), 'pico8')
+
+
 class MemFS:
     def __init__(self, x, files=None):
         self.files = dict(files or {})     # name -> bytes
@@ -37,6 +48,9 @@ class MemFS:
             if 'w' in mode or '+' in mode or 'a' in mode:
                 return Dest(name)
             if name not in fs.files:
+                if str(name).startswith(_PKG_DIR):
+                    # resources bundled with picotool (the blank label)
+                    return _real_open(name, mode, *a, **kw)
                 raise FileNotFoundError(name)
             fs.opened_for_read.append(name)
             return hx.MemStream(fs.files[name])
@@ -61,6 +75,17 @@ class MemFS:
             fs.removed.append(src)
             fs.opened_for_write.append(dst)
             fs.files[dst] = fs.files.pop(src)
+        def fake_copy(src, dst, *a, **kw):
+            if src not in fs.files:
+                raise FileNotFoundError(src)
+            fs.opened_for_read.append(src)
+            fs.opened_for_write.append(dst)
+            fs.files[dst] = fs.files[src]
+            return dst
+        import shutil
+        for fn_ in ('copyfile', 'copy', 'copy2'):
+            hx.patch(x, shutil, fn_, fake_copy)
+        hx.patch(x, shutil, 'move', fake_rename)
         hx.patch(x, os, 'remove', fake_remove)
         hx.patch(x, os, 'unlink', fake_remove)
         hx.patch(x, os, 'rename', fake_rename)
